@@ -1,7 +1,1402 @@
-//! C01 — not built yet.
+//! C01 — transactions read a stable snapshot (no dirty, fuzzy or phantom reads).
+//!
+//! Two layers (DESIGN.md §4 C01):
+//!  * `sessions`: generated multi-session histories on one in-memory `GrafeoDB`, every read compared with a
+//!    snapshot-isolation reference model (`World`). The pinned tree has deep, genuine MVCC defects (versions are
+//!    stamped with the writer's *start* epoch; properties, labels and adjacency are single-version and written in
+//!    place). Therefore every read computes a *conflict set* K — the entities whose write log contains a foreign
+//!    write that one of the listed defects makes observable to this reader. A read is **strict** when K does not
+//!    touch its footprint: it must equal the model exactly. Otherwise rows that mention an entity of K are removed
+//!    from both sides; the remainder must still be equal, and the case is attributed to the known finding named by
+//!    the class of the conflicting write.
+//!  * `kernel`: `VersionChain` and the `LpgStore` versioned API driven with explicit (epoch, tx) pairs against the
+//!    documented visibility predicate. Fully strict.
+//!
+//! The world/model is reused by C02.
 
-use crate::driver::Run;
+use std::collections::{BTreeMap, BTreeSet};
+
+use grafeo_common::mvcc::VersionChain;
+use grafeo_common::types::{EdgeId, EpochId, NodeId, TxId, Value};
+use grafeo_core::graph::lpg::LpgStore;
+use grafeo_engine::transaction::IsolationLevel;
+use grafeo_engine::{GrafeoDB, Session};
+use proptest::prelude::*;
+use serde::{Deserialize, Serialize};
+
+use crate::driver::{CaseResult, Failure, Run, fail, guard, hash_dbg, ok, pick};
+
+pub const LABELS: [&str; 3] = ["A", "B", "C"];
+pub const KEYS: [&str; 2] = ["x", "y"];
+pub const ETYPES: [&str; 2] = ["R", "S"];
+pub const N_TRIPLES: u8 = 4;
+
+// ------------------------------------------------------------------------------------------------
+// Operations (plain data)
+// ------------------------------------------------------------------------------------------------
+
+#[derive(Clone, Debug, Serialize, Deserialize, PartialEq)]
+pub enum Op {
+    Begin { s: u8, ser: bool },
+    Commit { s: u8 },
+    Rollback { s: u8 },
+    /// via: 0 direct API, 1 GQL INSERT, 2 Cypher CREATE
+    CreateNode { s: u8, label: u8, x: u8, via: u8 },
+    CreateEdge { s: u8, a: u16, b: u16, ty: u8 },
+    SetProp { s: u8, n: u16, key: u8, val: u8 },
+    RemoveProp { s: u8, n: u16, key: u8 },
+    AddLabel { s: u8, n: u16, label: u8 },
+    RemoveLabel { s: u8, n: u16, label: u8 },
+    DeleteNode { s: u8, n: u16 },
+    RdfInsert { s: u8, t: u8 },
+    RdfDelete { s: u8, t: u8 },
+    /// MERGE (n:L {x: v}) — only executed while no other transaction is open and nothing conflicts
+    Merge { s: u8, label: u8, x: u8 },
+    Read { s: u8, kind: u8, n: u16, arg: u8 },
+    /// repeat the previous read of this session
+    Repeat { s: u8 },
+}
+
+#[derive(Clone, Debug, Serialize, Deserialize)]
+pub struct History {
+    /// 0 free; 1 create-only transactions; 2 create-only + an epoch bump before every begin
+    pub mode: u8,
+    pub sessions: u8,
+    pub ops: Vec<Op>,
+}
+
+pub const N_READ_KINDS: u8 = 15;
+
+fn op_strategy() -> impl Strategy<Value = Op> {
+    let s = 0u8..4;
+    prop_oneof![
+        12 => (s.clone(), any::<bool>()).prop_map(|(s, ser)| Op::Begin { s, ser }),
+        5 => s.clone().prop_map(|s| Op::Commit { s }),
+        3 => s.clone().prop_map(|s| Op::Rollback { s }),
+        10 => (s.clone(), 0u8..3, 0u8..4, 0u8..3).prop_map(|(s, label, x, via)| Op::CreateNode { s, label, x, via }),
+        6 => (s.clone(), any::<u16>(), any::<u16>(), 0u8..2).prop_map(|(s, a, b, ty)| Op::CreateEdge { s, a, b, ty }),
+        6 => (s.clone(), any::<u16>(), 0u8..2, 0u8..4).prop_map(|(s, n, key, val)| Op::SetProp { s, n, key, val }),
+        2 => (s.clone(), any::<u16>(), 0u8..2).prop_map(|(s, n, key)| Op::RemoveProp { s, n, key }),
+        3 => (s.clone(), any::<u16>(), 0u8..3).prop_map(|(s, n, label)| Op::AddLabel { s, n, label }),
+        2 => (s.clone(), any::<u16>(), 0u8..3).prop_map(|(s, n, label)| Op::RemoveLabel { s, n, label }),
+        3 => (s.clone(), any::<u16>()).prop_map(|(s, n)| Op::DeleteNode { s, n }),
+        2 => (s.clone(), 0u8..N_TRIPLES).prop_map(|(s, t)| Op::RdfInsert { s, t }),
+        1 => (s.clone(), 0u8..N_TRIPLES).prop_map(|(s, t)| Op::RdfDelete { s, t }),
+        2 => (s.clone(), 0u8..3, 0u8..4).prop_map(|(s, label, x)| Op::Merge { s, label, x }),
+        30 => (s.clone(), 0u8..N_READ_KINDS, any::<u16>(), 0u8..4).prop_map(|(s, kind, n, arg)| Op::Read { s, kind, n, arg }),
+        8 => s.prop_map(|s| Op::Repeat { s }),
+    ]
+}
+
+pub fn history_strategy(max_ops: usize) -> impl Strategy<Value = History> {
+    // a populated starting graph (auto-commit creates by session 0), then the generated ops
+    let setup = proptest::collection::vec(
+        prop_oneof![
+            3 => (0u8..3, 0u8..4, 0u8..3).prop_map(|(label, x, via)| Op::CreateNode { s: 0, label, x, via }),
+            1 => (any::<u16>(), any::<u16>(), 0u8..2).prop_map(|(a, b, ty)| Op::CreateEdge { s: 0, a, b, ty }),
+        ],
+        0..7,
+    );
+    (prop_oneof![2 => Just(0u8), 2 => Just(1u8), 3 => Just(2u8)], 2u8..=4, setup, proptest::collection::vec(op_strategy(), 1..max_ops))
+        .prop_map(|(mode, sessions, mut setup, ops)| {
+            setup.extend(ops);
+            History { mode, sessions, ops: setup }
+        })
+}
+
+// ------------------------------------------------------------------------------------------------
+// Reference model
+// ------------------------------------------------------------------------------------------------
+
+#[derive(Clone, Debug, Default, PartialEq)]
+pub struct NodeM {
+    pub labels: BTreeSet<&'static str>,
+    pub props: BTreeMap<&'static str, i64>,
+}
+
+#[derive(Clone, Debug, Default, PartialEq)]
+pub struct State {
+    pub nodes: BTreeMap<u64, NodeM>,
+    pub edges: BTreeMap<u64, (u64, u64, &'static str)>,
+    pub triples: BTreeSet<u8>,
+}
+
+#[derive(Clone, Debug)]
+pub enum WOp {
+    CreateNode { id: u64, label: &'static str, x: i64 },
+    CreateEdge { id: u64, a: u64, b: u64, ty: &'static str },
+    SetProp { n: u64, key: &'static str, val: i64 },
+    RemoveProp { n: u64, key: &'static str },
+    AddLabel { n: u64, label: &'static str },
+    RemoveLabel { n: u64, label: &'static str },
+    /// detach-delete: node and every incident edge
+    DeleteNode { n: u64 },
+    RdfIns(u8),
+    RdfDel(u8),
+}
+
+impl State {
+    pub fn apply(&mut self, w: &WOp) {
+        match w {
+            WOp::CreateNode { id, label, x } => {
+                let mut n = NodeM::default();
+                n.labels.insert(label);
+                n.props.insert("x", *x);
+                self.nodes.insert(*id, n);
+            }
+            WOp::CreateEdge { id, a, b, ty } => {
+                self.edges.insert(*id, (*a, *b, ty));
+            }
+            WOp::SetProp { n, key, val } => {
+                if let Some(nm) = self.nodes.get_mut(n) {
+                    nm.props.insert(key, *val);
+                }
+            }
+            WOp::RemoveProp { n, key } => {
+                if let Some(nm) = self.nodes.get_mut(n) {
+                    nm.props.remove(key);
+                }
+            }
+            WOp::AddLabel { n, label } => {
+                if let Some(nm) = self.nodes.get_mut(n) {
+                    nm.labels.insert(label);
+                }
+            }
+            WOp::RemoveLabel { n, label } => {
+                if let Some(nm) = self.nodes.get_mut(n) {
+                    nm.labels.remove(label);
+                }
+            }
+            WOp::DeleteNode { n } => {
+                if self.nodes.remove(n).is_some() {
+                    self.edges.retain(|_, (a, b, _)| a != n && b != n);
+                }
+            }
+            WOp::RdfIns(t) => {
+                self.triples.insert(*t);
+            }
+            WOp::RdfDel(t) => {
+                self.triples.remove(t);
+            }
+        }
+    }
+}
+
+#[derive(Clone, Copy, Debug, PartialEq, Eq, PartialOrd, Ord)]
+pub enum Ent {
+    Node(u64),
+    Edge(u64),
+    Triple(u8),
+}
+
+#[derive(Clone, Copy, Debug, PartialEq, Eq)]
+pub enum WKind {
+    Create,
+    Mutate,
+    Delete,
+}
+
+#[derive(Clone, Copy, Debug, PartialEq, Eq)]
+pub enum Writer {
+    Tx(usize),
+    /// auto-commit write applied at this manager epoch
+    Auto { epoch: u64 },
+}
+
+#[derive(Clone, Copy, Debug)]
+pub struct WLog {
+    pub writer: Writer,
+    pub kind: WKind,
+    pub time: usize,
+}
+
+#[derive(Clone, Copy, Debug, PartialEq, Eq)]
+pub enum TxStatus {
+    Open,
+    Committed(usize),
+    RolledBack(usize),
+}
+
+pub struct TxM {
+    pub view: State,
+    pub writes: Vec<WOp>,
+    pub start_epoch: u64,
+    pub begin_time: usize,
+    pub status: TxStatus,
+}
+
+/// One observed / expected answer: rows (each with the entities it mentions) or a scalar.
+#[derive(Clone, Debug, PartialEq)]
+pub struct Answer {
+    pub rows: Vec<(Vec<Ent>, String)>,
+    pub scalar: Option<i64>,
+}
+
+impl Answer {
+    fn sorted(mut self) -> Self {
+        self.rows.sort();
+        self
+    }
+    fn without(&self, k: &BTreeMap<Ent, &'static str>) -> Vec<&String> {
+        self.rows.iter().filter(|(e, _)| !e.iter().any(|x| k.contains_key(x))).map(|(_, s)| s).collect()
+    }
+}
+
+pub struct World {
+    pub db: GrafeoDB,
+    pub sessions: Vec<Session>,
+    pub cur_tx: Vec<Option<usize>>,
+    pub last_read: Vec<Option<(u8, u16, u8)>>,
+    pub txs: Vec<TxM>,
+    pub committed: State,
+    pub epoch: u64,
+    pub time: usize,
+    pub log: BTreeMap<Ent, Vec<WLog>>,
+    pub taint: BTreeSet<Ent>,
+    pub all_nodes: Vec<u64>,
+    pub all_edges: Vec<(u64, u64, u64)>,
+    pub mode: u8,
+    // statistics of the case
+    pub strict_reads: u32,
+    pub strict_nontrivial: u32,
+    pub tolerated_reads: u32,
+    pub skipped: u32,
+    pub concurrent_reads: u32,
+}
+
+/// The outcome of comparing one read.
+pub enum ReadVerdict {
+    Strict { nontrivial: bool },
+    ConflictButEqual,
+    Tolerated(&'static str),
+}
+
+impl World {
+    pub fn new(sessions: u8, mode: u8) -> Self {
+        let db = GrafeoDB::new_in_memory();
+        let n = sessions.clamp(1, 4) as usize;
+        let sess: Vec<Session> = (0..n).map(|_| db.session()).collect();
+        World {
+            db,
+            sessions: sess,
+            cur_tx: vec![None; n],
+            last_read: vec![None; n],
+            txs: Vec::new(),
+            committed: State::default(),
+            epoch: 0,
+            time: 0,
+            log: BTreeMap::new(),
+            taint: BTreeSet::new(),
+            all_nodes: Vec::new(),
+            all_edges: Vec::new(),
+            mode,
+            strict_reads: 0,
+            strict_nontrivial: 0,
+            tolerated_reads: 0,
+            skipped: 0,
+            concurrent_reads: 0,
+        }
+    }
+
+    fn sidx(&self, s: u8) -> usize {
+        (s as usize) % self.sessions.len()
+    }
+
+    pub fn view(&self, si: usize) -> &State {
+        match self.cur_tx[si] {
+            Some(t) => &self.txs[t].view,
+            None => &self.committed,
+        }
+    }
+
+    fn any_open_tx(&self) -> bool {
+        self.cur_tx.iter().any(Option::is_some)
+    }
+
+    fn writer(&self, si: usize) -> Writer {
+        match self.cur_tx[si] {
+            Some(t) => Writer::Tx(t),
+            None => Writer::Auto { epoch: self.epoch },
+        }
+    }
+
+    /// Records a write in the log; taints the entity when the write races with another writer's
+    /// write on the same entity (the engine detects no write-write conflicts through sessions).
+    fn log_write(&mut self, si: usize, e: Ent, kind: WKind) {
+        let w = self.writer(si);
+        let my_begin = match self.cur_tx[si] {
+            Some(t) => Some(self.txs[t].begin_time),
+            None => None,
+        };
+        if kind != WKind::Create {
+            if let Some(entries) = self.log.get(&e) {
+                for o in entries {
+                    if o.writer == w {
+                        continue;
+                    }
+                    let other_open = matches!(o.writer, Writer::Tx(t) if self.txs[t].status == TxStatus::Open);
+                    let since_my_begin = my_begin.is_some_and(|b| o.time > b);
+                    // a foreign transaction that finished after my snapshot was taken
+                    let finished_after = match (o.writer, my_begin) {
+                        (Writer::Tx(t), Some(b)) => match self.txs[t].status {
+                            TxStatus::Committed(tc) | TxStatus::RolledBack(tc) => tc > b,
+                            TxStatus::Open => true,
+                        },
+                        _ => false,
+                    };
+                    if other_open || since_my_begin || finished_after {
+                        self.taint.insert(e);
+                    }
+                }
+            }
+        }
+        self.log.entry(e).or_default().push(WLog { writer: w, kind, time: self.time });
+    }
+
+    fn apply_write(&mut self, si: usize, w: WOp) {
+        match self.cur_tx[si] {
+            Some(t) => {
+                self.txs[t].view.apply(&w);
+                self.txs[t].writes.push(w);
+            }
+            None => self.committed.apply(&w),
+        }
+    }
+
+    /// Conflict set for a read by session `si` (see module docs).
+    pub fn conflicts(&self, si: usize, versioned: bool) -> BTreeMap<Ent, &'static str> {
+        let reader_tx = self.cur_tx[si];
+        let (view_epoch, begin_time) = match reader_tx {
+            Some(t) => (self.txs[t].start_epoch, Some(self.txs[t].begin_time)),
+            None => (self.epoch, None),
+        };
+        let mut k: BTreeMap<Ent, &'static str> = BTreeMap::new();
+        for e in &self.taint {
+            k.insert(*e, "lost-update");
+        }
+        for (e, entries) in &self.log {
+            if k.contains_key(e) {
+                continue;
+            }
+            for w in entries {
+                if let (Writer::Tx(t), Some(rt)) = (w.writer, reader_tx) {
+                    if t == rt {
+                        continue;
+                    }
+                }
+                let is_triple = matches!(e, Ent::Triple(_));
+                let class: Option<&'static str> = match w.writer {
+                    Writer::Tx(t) => {
+                        let tx = &self.txs[t];
+                        let hidden_create = w.kind == WKind::Create && versioned && tx.start_epoch > view_epoch;
+                        match tx.status {
+                            TxStatus::Open => {
+                                if is_triple || hidden_create {
+                                    None // triples are buffered until commit; hidden creates are invisible
+                                } else {
+                                    Some("dirty")
+                                }
+                            }
+                            TxStatus::RolledBack(_) => {
+                                if is_triple {
+                                    None
+                                } else if w.kind == WKind::Create {
+                                    if versioned { None } else { Some("rollback-residue") }
+                                } else {
+                                    Some("rollback-residue")
+                                }
+                            }
+                            TxStatus::Committed(tc) => match begin_time {
+                                Some(b) if b < tc => {
+                                    if is_triple {
+                                        Some("rdf-fuzzy")
+                                    } else if hidden_create {
+                                        None
+                                    } else {
+                                        Some("phantom")
+                                    }
+                                }
+                                _ => None,
+                            },
+                        }
+                    }
+                    Writer::Auto { epoch } => match begin_time {
+                        Some(b) if b < w.time => {
+                            if is_triple {
+                                Some("rdf-fuzzy")
+                            } else if w.kind == WKind::Create && versioned && epoch > view_epoch {
+                                None
+                            } else {
+                                Some("phantom")
+                            }
+                        }
+                        _ => None,
+                    },
+                };
+                if let Some(c) = class {
+                    k.insert(*e, c);
+                    break;
+                }
+            }
+        }
+        // own pending triple writes are invisible to the writer's own SPARQL reads (known finding)
+        if let Some(rt) = reader_tx {
+            for w in &self.txs[rt].writes {
+                if let WOp::RdfIns(t) | WOp::RdfDel(t) = w {
+                    k.entry(Ent::Triple(*t)).or_insert("rdf-own-writes");
+                }
+            }
+        }
+        k
+    }
+}
+
+fn triple_text(t: u8) -> String {
+    format!("<http://v/s{t}> <http://v/p> <http://v/o{t}>")
+}
+
+fn val_i(v: &Value) -> Option<i64> {
+    match v {
+        Value::Int64(i) => Some(*i),
+        _ => None,
+    }
+}
+
+fn cell(v: &Value) -> String {
+    match v {
+        Value::Null => "null".into(),
+        Value::Int64(i) => i.to_string(),
+        Value::String(s) => format!("'{s}'"),
+        Value::List(l) => {
+            let mut xs: Vec<String> = l.iter().map(cell).collect();
+            xs.sort();
+            format!("[{}]", xs.join(","))
+        }
+        other => format!("{other:?}"),
+    }
+}
+
+fn mismatch(kind: &str, what: String) -> Failure {
+    Failure { signature: format!("c01/read-mismatch:{kind}"), what }
+}
+
+// ------------------------------------------------------------------------------------------------
+// Executing one op on the engine and on the model
+// ------------------------------------------------------------------------------------------------
+
+impl World {
+    fn exec_gql(&self, si: usize, q: &str) -> Result<Vec<Vec<Value>>, Failure> {
+        let s = &self.sessions[si];
+        match guard(q, || s.execute(q))? {
+            Ok(r) => Ok(r.rows),
+            Err(e) => fail("c01/statement-error", format!("{q}: {e}")),
+        }
+    }
+
+    fn exec_cypher(&self, si: usize, q: &str) -> Result<Vec<Vec<Value>>, Failure> {
+        let s = &self.sessions[si];
+        match guard(q, || s.execute_cypher(q))? {
+            Ok(r) => Ok(r.rows),
+            Err(e) => fail("c01/statement-error", format!("{q}: {e}")),
+        }
+    }
+
+    fn exec_sparql(&self, si: usize, q: &str) -> Result<Vec<Vec<Value>>, Failure> {
+        let s = &self.sessions[si];
+        match guard(q, || s.execute_sparql(q))? {
+            Ok(r) => Ok(r.rows),
+            Err(e) => fail("c01/statement-error", format!("{q}: {e}")),
+        }
+    }
+
+    /// An explicit empty transaction on a helper session: advances the manager epoch.
+    fn bump_epoch(&mut self) -> Result<(), Failure> {
+        let mut h = self.db.session();
+        let r = guard("bump", || h.begin_tx().and_then(|()| h.commit()))?;
+        if let Err(e) = r {
+            return fail("c01/commit-refused", format!("empty transaction refused: {e}"));
+        }
+        self.epoch += 1;
+        Ok(())
+    }
+
+    /// Applies one op. Reads return their verdict through the counters; a failure is returned as Err.
+    pub fn step(&mut self, op: &Op) -> Result<(), Failure> {
+        self.time += 1;
+        match *op {
+            Op::Begin { s, ser } => {
+                let si = self.sidx(s);
+                if self.cur_tx[si].is_some() {
+                    self.skipped += 1;
+                    return Ok(());
+                }
+                if self.mode == 2 {
+                    self.bump_epoch()?;
+                }
+                let iso = if ser { IsolationLevel::Serializable } else { IsolationLevel::SnapshotIsolation };
+                let sess = &mut self.sessions[si];
+                match guard("begin", || sess.begin_tx_with_isolation(iso))? {
+                    Ok(()) => {}
+                    Err(e) => return fail("c01/begin-error", format!("{e}")),
+                }
+                self.txs.push(TxM {
+                    view: self.committed.clone(),
+                    writes: Vec::new(),
+                    start_epoch: self.epoch,
+                    begin_time: self.time,
+                    status: TxStatus::Open,
+                });
+                self.cur_tx[si] = Some(self.txs.len() - 1);
+            }
+            Op::Commit { s } => {
+                let si = self.sidx(s);
+                let Some(t) = self.cur_tx[si] else {
+                    self.skipped += 1;
+                    return Ok(());
+                };
+                let sess = &mut self.sessions[si];
+                match guard("commit", || sess.commit())? {
+                    Ok(()) => {}
+                    Err(e) => return fail("c01/commit-refused", format!("commit refused although sessions never register writes: {e}")),
+                }
+                let writes = std::mem::take(&mut self.txs[t].writes);
+                for w in &writes {
+                    self.committed.apply(w);
+                }
+                self.txs[t].writes = writes;
+                self.txs[t].status = TxStatus::Committed(self.time);
+                self.cur_tx[si] = None;
+                self.epoch += 1;
+            }
+            Op::Rollback { s } => {
+                let si = self.sidx(s);
+                let Some(t) = self.cur_tx[si] else {
+                    self.skipped += 1;
+                    return Ok(());
+                };
+                let sess = &mut self.sessions[si];
+                match guard("rollback", || sess.rollback())? {
+                    Ok(()) => {}
+                    Err(e) => return fail("c01/rollback-error", format!("{e}")),
+                }
+                self.txs[t].status = TxStatus::RolledBack(self.time);
+                self.cur_tx[si] = None;
+            }
+            Op::CreateNode { s, label, x, via } => {
+                let si = self.sidx(s);
+                let l = LABELS[label as usize % 3];
+                let xv = i64::from(x);
+                let id = match via % 3 {
+                    0 => {
+                        let sess = &self.sessions[si];
+                        guard("create_node_with_props", || sess.create_node_with_props(&[l], [("x", Value::Int64(xv))]))?.as_u64()
+                    }
+                    1 => {
+                        let rows = self.exec_gql(si, &format!("INSERT (:{l} {{x: {xv}}})"))?;
+                        match rows.first().and_then(|r| r.first()).and_then(val_i) {
+                            Some(i) => i as u64,
+                            None => return fail("c01/insert-no-id", format!("INSERT returned {rows:?}")),
+                        }
+                    }
+                    _ => {
+                        let rows = self.exec_cypher(si, &format!("CREATE (:{l} {{x: {xv}}})"))?;
+                        match rows.first().and_then(|r| r.first()).and_then(val_i) {
+                            Some(i) => i as u64,
+                            None => return fail("c01/insert-no-id", format!("CREATE returned {rows:?}")),
+                        }
+                    }
+                };
+                if self.all_nodes.contains(&id) {
+                    return fail("c01/duplicate-node-id", format!("node id {id} handed out twice"));
+                }
+                self.all_nodes.push(id);
+                self.log_write(si, Ent::Node(id), WKind::Create);
+                self.apply_write(si, WOp::CreateNode { id, label: l, x: xv });
+            }
+            Op::CreateEdge { s, a, b, ty } => {
+                let si = self.sidx(s);
+                let ids: Vec<u64> = self.view(si).nodes.keys().copied().collect();
+                if ids.is_empty() {
+                    self.skipped += 1;
+                    return Ok(());
+                }
+                let (na, nb) = (ids[pick(a, ids.len())], ids[pick(b, ids.len())]);
+                // endpoints must not be in a defective region for the writer (otherwise the edge hangs on a node
+                // the engine may not show): skip when either endpoint conflicts for this session
+                let k = self.conflicts(si, true);
+                if k.contains_key(&Ent::Node(na)) || k.contains_key(&Ent::Node(nb)) {
+                    self.skipped += 1;
+                    return Ok(());
+                }
+                let t = ETYPES[ty as usize % 2];
+                let sess = &self.sessions[si];
+                let id = guard("create_edge", || sess.create_edge(NodeId::new(na), NodeId::new(nb), t))?.as_u64();
+                if self.all_edges.iter().any(|(e, _, _)| *e == id) {
+                    return fail("c01/duplicate-edge-id", format!("edge id {id} handed out twice"));
+                }
+                self.all_edges.push((id, na, nb));
+                self.log_write(si, Ent::Edge(id), WKind::Create);
+                self.apply_write(si, WOp::CreateEdge { id, a: na, b: nb, ty: t });
+            }
+            Op::SetProp { .. } | Op::RemoveProp { .. } | Op::AddLabel { .. } | Op::RemoveLabel { .. } | Op::DeleteNode { .. } => {
+                self.mutate(op)?;
+            }
+            Op::RdfInsert { s, t } | Op::RdfDelete { s, t } => {
+                let si = self.sidx(s);
+                let ins = matches!(op, Op::RdfInsert { .. });
+                let q = if ins { format!("INSERT DATA {{ {} }}", triple_text(t)) } else { format!("DELETE DATA {{ {} }}", triple_text(t)) };
+                self.exec_sparql(si, &q)?;
+                self.log_write(si, Ent::Triple(t), if ins { WKind::Create } else { WKind::Delete });
+                self.apply_write(si, if ins { WOp::RdfIns(t) } else { WOp::RdfDel(t) });
+            }
+            Op::Merge { s, label, x } => {
+                let si = self.sidx(s);
+                let others_open = self.cur_tx.iter().enumerate().any(|(i, t)| i != si && t.is_some());
+                if others_open || !self.conflicts(si, true).is_empty() {
+                    self.skipped += 1;
+                    return Ok(());
+                }
+                let l = LABELS[label as usize % 3];
+                let xv = i64::from(x);
+                let exists = self.view(si).nodes.values().any(|n| n.labels.contains(l) && n.props.get("x") == Some(&xv));
+                self.exec_gql(si, &format!("MERGE (n:{l} {{x: {xv}}})"))?;
+                if !exists {
+                    // ids come from a counter and are never reused: the created node has the next id
+                    let id = self.all_nodes.iter().copied().max().map_or(0, |m| m + 1);
+                    self.all_nodes.push(id);
+                    self.log_write(si, Ent::Node(id), WKind::Create);
+                    self.apply_write(si, WOp::CreateNode { id, label: l, x: xv });
+                }
+            }
+            Op::Read { s, kind, n, arg } => {
+                let si = self.sidx(s);
+                self.last_read[si] = Some((kind, n, arg));
+                self.read(si, kind, n, arg)?;
+            }
+            Op::Repeat { s } => {
+                let si = self.sidx(s);
+                match self.last_read[si] {
+                    Some((kind, n, arg)) => self.read(si, kind, n, arg)?,
+                    None => self.skipped += 1,
+                }
+            }
+        }
+        Ok(())
+    }
+
+    fn mutate(&mut self, op: &Op) -> Result<(), Failure> {
+        let (s, n) = match *op {
+            Op::SetProp { s, n, .. } | Op::RemoveProp { s, n, .. } | Op::AddLabel { s, n, .. } | Op::RemoveLabel { s, n, .. } | Op::DeleteNode { s, n } => (s, n),
+            _ => unreachable!(),
+        };
+        let si = self.sidx(s);
+        // modes 1 and 2: transactions only create; auto-commit mutations only while no transaction is open
+        if self.mode >= 1 && self.any_open_tx() {
+            self.skipped += 1;
+            return Ok(());
+        }
+        let ids: Vec<u64> = self.view(si).nodes.keys().copied().collect();
+        if ids.is_empty() {
+            self.skipped += 1;
+            return Ok(());
+        }
+        let id = ids[pick(n, ids.len())];
+        // the target must be one the engine shows to this writer exactly as the model does
+        let k = self.conflicts(si, true);
+        if k.contains_key(&Ent::Node(id)) {
+            self.skipped += 1;
+            return Ok(());
+        }
+        match *op {
+            Op::SetProp { key, val, .. } => {
+                let kname = KEYS[key as usize % 2];
+                self.exec_gql(si, &format!("MATCH (n) WHERE id(n) = {id} SET n.{kname} = {val}"))?;
+                self.log_write(si, Ent::Node(id), WKind::Mutate);
+                self.apply_write(si, WOp::SetProp { n: id, key: kname, val: i64::from(val) });
+            }
+            Op::RemoveProp { key, .. } => {
+                let kname = KEYS[key as usize % 2];
+                self.exec_gql(si, &format!("MATCH (n) WHERE id(n) = {id} REMOVE n.{kname}"))?;
+                self.log_write(si, Ent::Node(id), WKind::Mutate);
+                self.apply_write(si, WOp::RemoveProp { n: id, key: kname });
+            }
+            Op::AddLabel { label, .. } => {
+                let l = LABELS[label as usize % 3];
+                self.exec_gql(si, &format!("MATCH (n) WHERE id(n) = {id} SET n:{l}"))?;
+                self.log_write(si, Ent::Node(id), WKind::Mutate);
+                self.apply_write(si, WOp::AddLabel { n: id, label: l });
+            }
+            Op::RemoveLabel { label, .. } => {
+                let l = LABELS[label as usize % 3];
+                self.exec_gql(si, &format!("MATCH (n) WHERE id(n) = {id} REMOVE n:{l}"))?;
+                self.log_write(si, Ent::Node(id), WKind::Mutate);
+                self.apply_write(si, WOp::RemoveLabel { n: id, label: l });
+            }
+            Op::DeleteNode { .. } => {
+                self.exec_gql(si, &format!("MATCH (n) WHERE id(n) = {id} DETACH DELETE n"))?;
+                self.log_write(si, Ent::Node(id), WKind::Delete);
+                // every edge ever created on this node is touched by the engine's detach
+                let touched: Vec<u64> = self.all_edges.iter().filter(|(_, a, b)| *a == id || *b == id).map(|(e, _, _)| *e).collect();
+                for e in touched {
+                    self.log_write(si, Ent::Edge(e), WKind::Delete);
+                    if !self.view(si).edges.contains_key(&e) {
+                        // an edge this writer cannot see was deleted along: permanently outside the model
+                        self.taint.insert(Ent::Edge(e));
+                    }
+                }
+                self.apply_write(si, WOp::DeleteNode { n: id });
+            }
+            _ => unreachable!(),
+        }
+        Ok(())
+    }
+
+    /// Expected answer of a read kind on a state.
+    pub fn expected(&self, st: &State, kind: u8, n: u16, arg: u8) -> Option<Answer> {
+        let mut rows: Vec<(Vec<Ent>, String)> = Vec::new();
+        let mut scalar = None;
+        let all: &Vec<u64> = &self.all_nodes;
+        match kind {
+            0 | 13 => {
+                let l = LABELS[arg as usize % 3];
+                for (id, nm) in &st.nodes {
+                    if nm.labels.contains(l) {
+                        rows.push((vec![Ent::Node(*id)], id.to_string()));
+                    }
+                }
+            }
+            1 => {
+                for id in st.nodes.keys() {
+                    rows.push((vec![Ent::Node(*id)], id.to_string()));
+                }
+            }
+            2 | 14 => {
+                let key = if kind == 2 { "x" } else { "y" };
+                for (id, nm) in &st.nodes {
+                    let v = nm.props.get(key).map_or("null".to_string(), |v| v.to_string());
+                    rows.push((vec![Ent::Node(*id)], format!("{id},{v}")));
+                }
+            }
+            3 => {
+                for (e, (a, b, _)) in &st.edges {
+                    if st.nodes.contains_key(a) && st.nodes.contains_key(b) {
+                        rows.push((vec![Ent::Node(*a), Ent::Edge(*e), Ent::Node(*b)], format!("{a},{e},{b}")));
+                    }
+                }
+            }
+            4 => scalar = Some(st.nodes.len() as i64),
+            5 => {
+                let v = i64::from(arg % 4);
+                for (id, nm) in &st.nodes {
+                    if nm.props.get("x") == Some(&v) {
+                        rows.push((vec![Ent::Node(*id)], id.to_string()));
+                    }
+                }
+            }
+            6 | 7 => {
+                if all.is_empty() {
+                    return None;
+                }
+                let id = all[pick(n, all.len())];
+                match st.nodes.get(&id) {
+                    Some(nm) if kind == 6 => {
+                        let labels: Vec<&str> = nm.labels.iter().copied().collect();
+                        let props: Vec<String> = nm.props.iter().map(|(k, v)| format!("{k}={v}")).collect();
+                        rows.push((vec![Ent::Node(id)], format!("{id}:{}:{}", labels.join("|"), props.join("|"))));
+                    }
+                    Some(_) => rows.push((vec![Ent::Node(id)], format!("{id}:exists"))),
+                    None => rows.push((vec![Ent::Node(id)], format!("{id}:absent"))),
+                }
+            }
+            8 => {
+                if self.all_edges.is_empty() {
+                    return None;
+                }
+                let (e, a, b) = self.all_edges[pick(n, self.all_edges.len())];
+                match st.edges.get(&e) {
+                    Some((a2, b2, t)) => rows.push((vec![Ent::Edge(e), Ent::Node(a), Ent::Node(b)], format!("{e}:{a2}-{t}->{b2}"))),
+                    None => rows.push((vec![Ent::Edge(e), Ent::Node(a), Ent::Node(b)], format!("{e}:absent"))),
+                }
+            }
+            9 | 10 | 11 => {
+                let ids: Vec<u64> = st.nodes.keys().copied().collect();
+                if ids.is_empty() {
+                    return None;
+                }
+                let id = ids[pick(n, ids.len())];
+                let mut out = 0;
+                let mut inc = 0;
+                for (e, (a, b, _)) in &st.edges {
+                    if *a == id {
+                        out += 1;
+                        if kind == 9 {
+                            rows.push((vec![Ent::Node(id), Ent::Edge(*e), Ent::Node(*b)], format!("{id}->{b}:{e}")));
+                        }
+                    }
+                    if *b == id {
+                        inc += 1;
+                        if kind == 10 {
+                            rows.push((vec![Ent::Node(id), Ent::Edge(*e), Ent::Node(*a)], format!("{id}<-{a}:{e}")));
+                        }
+                    }
+                }
+                if kind == 11 {
+                    rows.push((vec![Ent::Node(id)], format!("{id}:out={out},in={inc}")));
+                }
+            }
+            12 => {
+                for t in &st.triples {
+                    rows.push((vec![Ent::Triple(*t)], format!("http://v/s{t} http://v/p http://v/o{t}")));
+                }
+            }
+            _ => return None,
+        }
+        Some(Answer { rows, scalar }.sorted())
+    }
+
+    /// Runs a read kind against the engine.
+    fn observe(&self, si: usize, kind: u8, n: u16, arg: u8) -> Result<Option<Answer>, Failure> {
+        let mut rows: Vec<(Vec<Ent>, String)> = Vec::new();
+        let mut scalar = None;
+        let sess = &self.sessions[si];
+        let id_rows = |rs: Vec<Vec<Value>>, what: &str| -> Result<Vec<(Vec<Ent>, String)>, Failure> {
+            let mut out = Vec::new();
+            for r in rs {
+                match r.first().and_then(val_i) {
+                    Some(i) => out.push((vec![Ent::Node(i as u64)], (i as u64).to_string())),
+                    None => return Err(mismatch(what, format!("non-integer id row {r:?}"))),
+                }
+            }
+            Ok(out)
+        };
+        match kind {
+            0 => {
+                let l = LABELS[arg as usize % 3];
+                rows = id_rows(self.exec_gql(si, &format!("MATCH (n:{l}) RETURN id(n)"))?, "label-scan")?;
+            }
+            13 => {
+                let l = LABELS[arg as usize % 3];
+                rows = id_rows(self.exec_cypher(si, &format!("MATCH (n:{l}) RETURN id(n)"))?, "label-scan-cypher")?;
+            }
+            1 => rows = id_rows(self.exec_gql(si, "MATCH (n) RETURN id(n)")?, "scan")?,
+            2 | 14 => {
+                let key = if kind == 2 { "x" } else { "y" };
+                for r in self.exec_gql(si, &format!("MATCH (n) RETURN id(n), n.{key}"))? {
+                    match (r.first().and_then(val_i), r.get(1)) {
+                        (Some(i), Some(v)) => rows.push((vec![Ent::Node(i as u64)], format!("{},{}", i as u64, cell(v)))),
+                        _ => return Err(mismatch("projection", format!("bad row {r:?}"))),
+                    }
+                }
+            }
+            3 => {
+                for r in self.exec_gql(si, "MATCH (a)-[r]->(b) RETURN id(a), id(r), id(b)")? {
+                    match (r.first().and_then(val_i), r.get(1).and_then(val_i), r.get(2).and_then(val_i)) {
+                        (Some(a), Some(e), Some(b)) => rows.push((
+                            vec![Ent::Node(a as u64), Ent::Edge(e as u64), Ent::Node(b as u64)],
+                            format!("{a},{e},{b}"),
+                        )),
+                        _ => return Err(mismatch("expand", format!("bad row {r:?}"))),
+                    }
+                }
+            }
+            4 => {
+                let rs = self.exec_gql(si, "MATCH (n) RETURN count(n)")?;
+                match rs.first().and_then(|r| r.first()).and_then(val_i) {
+                    Some(c) if rs.len() == 1 => scalar = Some(c),
+                    _ => return Err(mismatch("count", format!("count returned {rs:?}"))),
+                }
+            }
+            5 => {
+                let v = arg % 4;
+                rows = id_rows(self.exec_gql(si, &format!("MATCH (n) WHERE n.x = {v} RETURN id(n)"))?, "filter-scan")?;
+            }
+            6 | 7 => {
+                if self.all_nodes.is_empty() {
+                    return Ok(None);
+                }
+                let id = self.all_nodes[pick(n, self.all_nodes.len())];
+                if kind == 6 {
+                    let got = guard("get_node", || sess.get_node(NodeId::new(id)))?;
+                    let batch = guard("get_nodes_batch", || sess.get_nodes_batch(&[NodeId::new(id)]))?;
+                    if batch.len() != 1 || batch[0].is_some() != got.is_some() {
+                        return Err(mismatch("get_nodes_batch", format!("batch disagrees with get_node for {id}")));
+                    }
+                    match got {
+                        Some(nd) => {
+                            let mut labels: Vec<String> = nd.labels.iter().map(|l| l.to_string()).collect();
+                            labels.sort();
+                            // convention: GQL `REMOVE n.k` stores NULL for the key; a NULL-valued property is observationally absent
+                            let mut props: Vec<(String, String)> =
+                                nd.properties.iter().filter(|(_, v)| !matches!(v, Value::Null)).map(|(k, v)| (k.as_str().to_string(), cell(v))).collect();
+                            props.sort();
+                            let props: Vec<String> = props.into_iter().map(|(k, v)| format!("{k}={v}")).collect();
+                            rows.push((vec![Ent::Node(id)], format!("{id}:{}:{}", labels.join("|"), props.join("|"))));
+                        }
+                        None => rows.push((vec![Ent::Node(id)], format!("{id}:absent"))),
+                    }
+                } else {
+                    let ex = guard("node_exists", || sess.node_exists(NodeId::new(id)))?;
+                    rows.push((vec![Ent::Node(id)], format!("{id}:{}", if ex { "exists" } else { "absent" })));
+                }
+            }
+            8 => {
+                if self.all_edges.is_empty() {
+                    return Ok(None);
+                }
+                let (e, a, b) = self.all_edges[pick(n, self.all_edges.len())];
+                let got = guard("get_edge", || sess.get_edge(EdgeId::new(e)))?;
+                let ex = guard("edge_exists", || sess.edge_exists(EdgeId::new(e)))?;
+                if ex != got.is_some() {
+                    return Err(mismatch("edge_exists", format!("edge_exists disagrees with get_edge for {e}")));
+                }
+                match got {
+                    Some(ed) => rows.push((
+                        vec![Ent::Edge(e), Ent::Node(a), Ent::Node(b)],
+                        format!("{e}:{}-{}->{}", ed.src.as_u64(), ed.edge_type, ed.dst.as_u64()),
+                    )),
+                    None => rows.push((vec![Ent::Edge(e), Ent::Node(a), Ent::Node(b)], format!("{e}:absent"))),
+                }
+            }
+            9 | 10 | 11 => {
+                let ids: Vec<u64> = self.view(si).nodes.keys().copied().collect();
+                if ids.is_empty() {
+                    return Ok(None);
+                }
+                let id = ids[pick(n, ids.len())];
+                match kind {
+                    9 => {
+                        for (o, e) in guard("neighbors_out", || sess.get_neighbors_outgoing(NodeId::new(id)))? {
+                            rows.push((vec![Ent::Node(id), Ent::Edge(e.as_u64()), Ent::Node(o.as_u64())], format!("{id}->{}:{}", o.as_u64(), e.as_u64())));
+                        }
+                    }
+                    10 => {
+                        for (o, e) in guard("neighbors_in", || sess.get_neighbors_incoming(NodeId::new(id)))? {
+                            rows.push((vec![Ent::Node(id), Ent::Edge(e.as_u64()), Ent::Node(o.as_u64())], format!("{id}<-{}:{}", o.as_u64(), e.as_u64())));
+                        }
+                    }
+                    _ => {
+                        let (out, inc) = guard("degree", || sess.get_degree(NodeId::new(id)))?;
+                        rows.push((vec![Ent::Node(id)], format!("{id}:out={out},in={inc}")));
+                    }
+                }
+            }
+            12 => {
+                for r in self.exec_sparql(si, "SELECT ?s ?p ?o WHERE { ?s ?p ?o }")? {
+                    let txt: Vec<String> = r
+                        .iter()
+                        .map(|v| match v {
+                            Value::String(s) => s.to_string(),
+                            o => cell(o),
+                        })
+                        .collect();
+                    let t = txt.first().and_then(|s| s.strip_prefix("http://v/s")).and_then(|x| x.parse::<u8>().ok());
+                    match t {
+                        Some(t) => rows.push((vec![Ent::Triple(t)], txt.join(" "))),
+                        None => return Err(mismatch("sparql", format!("unexpected solution {r:?}"))),
+                    }
+                }
+            }
+            _ => return Ok(None),
+        }
+        Ok(Some(Answer { rows, scalar }.sorted()))
+    }
+
+    pub fn read(&mut self, si: usize, kind: u8, n: u16, arg: u8) -> Result<(), Failure> {
+        let v = self.read_verdict(si, kind, n, arg)?;
+        match v {
+            None => self.skipped += 1,
+            Some(ReadVerdict::Strict { nontrivial }) => {
+                self.strict_reads += 1;
+                if nontrivial {
+                    self.strict_nontrivial += 1;
+                }
+            }
+            Some(ReadVerdict::ConflictButEqual) => self.strict_reads += 1,
+            Some(ReadVerdict::Tolerated(class)) => {
+                self.tolerated_reads += 1;
+                return Err(Failure { signature: format!("c01/known/{class}"), what: String::new() });
+            }
+        }
+        Ok(())
+    }
+
+    pub fn read_verdict(&mut self, si: usize, kind: u8, n: u16, arg: u8) -> Result<Option<ReadVerdict>, Failure> {
+        let kind = kind % N_READ_KINDS;
+        let Some(exp) = self.expected(self.view(si), kind, n, arg) else { return Ok(None) };
+        let Some(obs) = self.observe(si, kind, n, arg)? else { return Ok(None) };
+        let versioned = !matches!(kind, 9 | 10 | 11);
+        let mut k = self.conflicts(si, versioned);
+        // degree is a count over incident edges: any conflicting incident edge makes the node's degree conflict
+        if kind == 11 || kind == 9 || kind == 10 {
+            let extra: Vec<u64> = self
+                .all_edges
+                .iter()
+                .filter(|(e, _, _)| k.contains_key(&Ent::Edge(*e)))
+                .flat_map(|(_, a, b)| [*a, *b])
+                .collect();
+            if kind == 11 {
+                for x in extra {
+                    k.entry(Ent::Node(x)).or_insert("in-place-adjacency");
+                }
+            }
+        }
+        let footprint_conflict = match kind {
+            4 => k.keys().any(|e| matches!(e, Ent::Node(_))),
+            12 => k.keys().any(|e| matches!(e, Ent::Triple(_))),
+            _ => {
+                obs.rows.iter().chain(exp.rows.iter()).any(|(es, _)| es.iter().any(|e| k.contains_key(e)))
+                    || (matches!(kind, 0 | 1 | 2 | 3 | 5 | 13 | 14) && k.keys().any(|e| !matches!(e, Ent::Triple(_))))
+            }
+        };
+        let in_tx = self.cur_tx[si].is_some();
+        let others_active = in_tx && {
+            let b = self.txs[self.cur_tx[si].unwrap()].begin_time;
+            self.log.values().flatten().any(|w| w.time > b && !matches!((w.writer, self.cur_tx[si]), (Writer::Tx(t), Some(rt)) if t == rt))
+        };
+        if others_active {
+            self.concurrent_reads += 1;
+        }
+        if obs == exp {
+            if footprint_conflict {
+                return Ok(Some(ReadVerdict::ConflictButEqual));
+            }
+            // non-trivial: the snapshot matters (the latest committed state would answer differently)
+            let latest = self.expected(&self.committed, kind, n, arg);
+            let nontrivial = others_active && latest.as_ref() != Some(&exp);
+            return Ok(Some(ReadVerdict::Strict { nontrivial }));
+        }
+        let kname = read_kind_name(kind);
+        let describe = |k: &BTreeMap<Ent, &'static str>| {
+            format!(
+                "session {si} (in_tx={in_tx}) read {kname}: expected {:?}{} but observed {:?}{}; conflict set {:?}",
+                exp.rows.iter().map(|r| &r.1).collect::<Vec<_>>(),
+                exp.scalar.map_or(String::new(), |s| format!(" scalar {s}")),
+                obs.rows.iter().map(|r| &r.1).collect::<Vec<_>>(),
+                obs.scalar.map_or(String::new(), |s| format!(" scalar {s}")),
+                k
+            )
+        };
+        if !footprint_conflict {
+            return Err(mismatch(kname, describe(&k)));
+        }
+        // explained by the conflict set? remove the rows that mention a conflicting entity
+        let explained = match kind {
+            4 => {
+                let nk = k.keys().filter(|e| matches!(e, Ent::Node(_))).count() as i64;
+                (obs.scalar.unwrap_or(0) - exp.scalar.unwrap_or(0)).abs() <= nk
+            }
+            _ => obs.without(&k) == exp.without(&k),
+        };
+        if !explained {
+            return Err(mismatch(kname, format!("not explained by the conflict set: {}", describe(&k))));
+        }
+        // attribute to the class of a conflicting entity that actually appears in the difference
+        let mut class = "in-place";
+        let diff_ents: BTreeSet<Ent> = obs
+            .rows
+            .iter()
+            .filter(|r| !exp.rows.contains(r))
+            .chain(exp.rows.iter().filter(|r| !obs.rows.contains(r)))
+            .flat_map(|(es, _)| es.iter().copied())
+            .collect();
+        for e in &diff_ents {
+            if let Some(c) = k.get(e) {
+                class = c;
+                break;
+            }
+        }
+        if kind == 4 {
+            class = k.values().next().copied().unwrap_or("in-place");
+        }
+        Ok(Some(ReadVerdict::Tolerated(class)))
+    }
+}
+
+pub fn read_kind_name(kind: u8) -> &'static str {
+    match kind {
+        0 => "label-scan",
+        1 => "scan",
+        2 => "projection-x",
+        3 => "expand",
+        4 => "count",
+        5 => "filter-scan",
+        6 => "get_node",
+        7 => "node_exists",
+        8 => "get_edge",
+        9 => "neighbors-out",
+        10 => "neighbors-in",
+        11 => "degree",
+        12 => "sparql",
+        13 => "label-scan-cypher",
+        14 => "projection-y",
+        _ => "other",
+    }
+}
+
+/// Runs a whole history. Tolerated reads (known findings) do not stop the history: the first tolerated class is
+/// reported at the end if nothing worse happened, so that the driver counts the case under that finding.
+pub fn run_history(h: &History) -> CaseResult {
+    let mut w = World::new(h.sessions, h.mode);
+    let mut known: Vec<String> = Vec::new();
+    for op in &h.ops {
+        match w.step(op) {
+            Ok(()) => {}
+            Err(f) if f.signature.starts_with("c01/known/") => known.push(f.signature),
+            Err(f) => {
+                return Err(Failure { signature: f.signature, what: format!("{} (after op {:?}; mode {})", f.what, op, h.mode) });
+            }
+        }
+    }
+    // close what is still open so that no transaction outlives the case
+    for si in 0..w.sessions.len() {
+        if w.cur_tx[si].is_some() {
+            let _ = w.sessions[si].rollback();
+        }
+    }
+    let class = match (w.strict_nontrivial > 0, w.concurrent_reads > 0) {
+        (true, _) => format!("mode{}-snapshot-matters", h.mode),
+        (false, true) => format!("mode{}-concurrent", h.mode),
+        _ => format!("mode{}-serial", h.mode),
+    };
+    let class = if known.is_empty() { class } else { format!("{class}+defect-region") };
+    crate::driver::ok_with_known(w.strict_nontrivial > 0, class, hash_dbg(h), known)
+}
+
+// ------------------------------------------------------------------------------------------------
+// Visibility kernel
+// ------------------------------------------------------------------------------------------------
+
+#[derive(Clone, Debug, Serialize, Deserialize)]
+pub enum KOp {
+    /// create an entity at (epoch delta, tx)
+    Create { de: u8, tx: u8, edge: bool },
+    /// delete entity `i` at the current epoch
+    Delete { i: u16, edge: bool },
+    /// discard uncommitted versions of tx
+    Discard { tx: u8 },
+    /// probe visibility of entity `i` for (epoch, tx)
+    Probe { i: u16, epoch: u8, tx: u8, edge: bool },
+}
+
+#[derive(Clone, Debug, Serialize, Deserialize)]
+pub struct KCase {
+    pub ops: Vec<KOp>,
+}
+
+fn kernel_strategy() -> impl Strategy<Value = KCase> {
+    let op = prop_oneof![
+        4 => (0u8..3, 0u8..4, any::<bool>()).prop_map(|(de, tx, edge)| KOp::Create { de, tx, edge }),
+        2 => (any::<u16>(), any::<bool>()).prop_map(|(i, edge)| KOp::Delete { i, edge }),
+        1 => (0u8..4).prop_map(|tx| KOp::Discard { tx }),
+        8 => (any::<u16>(), 0u8..12, 0u8..5, any::<bool>()).prop_map(|(i, epoch, tx, edge)| KOp::Probe { i, epoch, tx, edge }),
+    ];
+    proptest::collection::vec(op, 1..40).prop_map(|ops| KCase { ops })
+}
+
+#[derive(Clone, Debug)]
+struct KEnt {
+    id: u64,
+    created: u64,
+    by: u64,
+    deleted: Option<u64>,
+    discarded: bool,
+}
+
+/// The documented predicate (mvcc.rs: "own modifications are always visible"; otherwise created ≤ epoch < deleted).
+fn k_visible(e: &KEnt, epoch: u64, tx: u64) -> bool {
+    if e.discarded {
+        return false;
+    }
+    if e.by == tx {
+        return e.deleted.is_none();
+    }
+    e.created <= epoch && e.deleted.is_none_or(|d| d > epoch)
+}
+
+fn run_kernel(c: &KCase) -> CaseResult {
+    let store = LpgStore::new();
+    // two anchor nodes for edges, created by the system at epoch 0
+    let a0 = store.create_node_versioned(&["N"], EpochId::new(0), TxId::SYSTEM);
+    let a1 = store.create_node_versioned(&["N"], EpochId::new(0), TxId::SYSTEM);
+    let mut epoch = 0u64;
+    let mut nodes: Vec<KEnt> = Vec::new();
+    let mut edges: Vec<KEnt> = Vec::new();
+    let mut probes = 0u32;
+    let mut interesting = 0u32;
+    let txid = |t: u8| if t == 0 { TxId::SYSTEM } else { TxId::new(10 + u64::from(t)) };
+    for op in &c.ops {
+        match *op {
+            KOp::Create { de, tx, edge } => {
+                epoch += u64::from(de);
+                let t = txid(tx);
+                if edge {
+                    let id = guard("create_edge_versioned", || store.create_edge_versioned(a0, a1, "E", EpochId::new(epoch), t))?.as_u64();
+                    edges.push(KEnt { id, created: epoch, by: t.as_u64(), deleted: None, discarded: false });
+                } else {
+                    let id = guard("create_node_versioned", || store.create_node_versioned(&["L"], EpochId::new(epoch), t))?.as_u64();
+                    nodes.push(KEnt { id, created: epoch, by: t.as_u64(), deleted: None, discarded: false });
+                }
+            }
+            KOp::Delete { i, edge } => {
+                let list = if edge { &mut edges } else { &mut nodes };
+                if list.is_empty() {
+                    continue;
+                }
+                let idx = pick(i, list.len());
+                let e = &mut list[idx];
+                if e.discarded || e.created > epoch {
+                    continue;
+                }
+                let was_live = e.deleted.is_none();
+                let r = if edge {
+                    guard("delete_edge_at_epoch", || store.delete_edge_at_epoch(EdgeId::new(e.id), EpochId::new(epoch)))?
+                } else {
+                    guard("delete_node_at_epoch", || store.delete_node_at_epoch(NodeId::new(e.id), EpochId::new(epoch)))?
+                };
+                if r != was_live {
+                    return fail("c01/kernel/delete-return", format!("delete of {e:?} at epoch {epoch} returned {r}"));
+                }
+                if was_live {
+                    e.deleted = Some(epoch);
+                }
+            }
+            KOp::Discard { tx } => {
+                if tx == 0 {
+                    continue;
+                }
+                let t = txid(tx);
+                guard("discard_uncommitted_versions", || store.discard_uncommitted_versions(t))?;
+                for e in nodes.iter_mut().chain(edges.iter_mut()) {
+                    if e.by == t.as_u64() {
+                        e.discarded = true;
+                    }
+                }
+            }
+            KOp::Probe { i, epoch: pe, tx, edge } => {
+                let list = if edge { &edges } else { &nodes };
+                if list.is_empty() {
+                    continue;
+                }
+                let e = &list[pick(i, list.len())];
+                let pe = u64::from(pe);
+                let t = txid(tx);
+                let exp = k_visible(e, pe, t.as_u64());
+                let got = if edge {
+                    guard("get_edge_versioned", || store.get_edge_versioned(EdgeId::new(e.id), EpochId::new(pe), t))?.is_some()
+                } else {
+                    guard("get_node_versioned", || store.get_node_versioned(NodeId::new(e.id), EpochId::new(pe), t))?.is_some()
+                };
+                probes += 1;
+                if e.deleted.is_some() || e.by == t.as_u64() || pe == e.created || e.discarded {
+                    interesting += 1;
+                }
+                if got != exp {
+                    return fail(
+                        "c01/kernel/visibility",
+                        format!("{} {e:?} probed at epoch {pe} by tx {}: expected visible={exp}, got {got}", if edge { "edge" } else { "node" }, t.as_u64()),
+                    );
+                }
+                // the epoch-only path agrees with the predicate for a viewer that owns nothing
+                let exp_at = !e.discarded && e.created <= pe && e.deleted.is_none_or(|d| d > pe);
+                let got_at = if edge {
+                    guard("get_edge_at_epoch", || store.get_edge_at_epoch(EdgeId::new(e.id), EpochId::new(pe)))?.is_some()
+                } else {
+                    guard("get_node_at_epoch", || store.get_node_at_epoch(NodeId::new(e.id), EpochId::new(pe)))?.is_some()
+                };
+                if got_at != exp_at {
+                    return fail("c01/kernel/visibility-at-epoch", format!("{e:?} at epoch {pe}: expected {exp_at}, got {got_at}"));
+                }
+            }
+        }
+    }
+    ok(interesting > 0, if probes == 0 { "no-probe" } else if interesting > 0 { "boundary-probes" } else { "plain-probes" }, hash_dbg(c))
+}
+
+#[derive(Clone, Debug, Serialize, Deserialize)]
+pub struct ChainCase {
+    /// (epoch delta, tx) of appended versions
+    pub versions: Vec<(u8, u8)>,
+    /// optional deletion: epoch delta after the last version
+    pub delete: Option<u8>,
+    pub gc_min: u8,
+}
+
+fn run_chain(c: &ChainCase) -> CaseResult {
+    let mut chain: VersionChain<u32> = VersionChain::new();
+    let mut model: Vec<(u64, u64, Option<u64>, u32)> = Vec::new(); // created, by, deleted, data (oldest first)
+    let mut epoch = 0u64;
+    for (i, (de, tx)) in c.versions.iter().enumerate() {
+        epoch += u64::from(*de);
+        let t = 10 + u64::from(*tx % 3);
+        // a new version supersedes the previous one at this epoch (documented protocol: one live version)
+        if let Some(last) = model.last_mut() {
+            if last.2.is_none() {
+                last.2 = Some(epoch);
+            }
+        }
+        guard("mark_deleted", || chain.mark_deleted(EpochId::new(epoch)))?;
+        guard("add_version", || chain.add_version(i as u32, EpochId::new(epoch), TxId::new(t)))?;
+        model.push((epoch, t, None, i as u32));
+    }
+    if let Some(d) = c.delete {
+        epoch += u64::from(d);
+        let r = guard("mark_deleted", || chain.mark_deleted(EpochId::new(epoch)))?;
+        let exp = model.last().is_some_and(|l| l.2.is_none());
+        if r != exp {
+            return fail("c01/chain/mark_deleted-return", format!("{c:?}: returned {r}"));
+        }
+        if let Some(last) = model.last_mut() {
+            if last.2.is_none() {
+                last.2 = Some(epoch);
+            }
+        }
+    }
+    let vis_at = |m: &Vec<(u64, u64, Option<u64>, u32)>, e: u64| -> Option<u32> {
+        m.iter().rev().find(|(c, _, d, _)| *c <= e && d.is_none_or(|d| d > e)).map(|x| x.3)
+    };
+    let before: Vec<Option<u32>> = (0..=epoch + 1).map(|e| chain.visible_at(EpochId::new(e)).copied()).collect();
+    for e in 0..=epoch + 1 {
+        let exp = vis_at(&model, e);
+        if before[e as usize] != exp {
+            return fail("c01/chain/visible_at", format!("{c:?}: epoch {e}: expected {exp:?}, got {:?}", before[e as usize]));
+        }
+    }
+    // gc(min) never changes what any epoch >= min sees
+    let min = u64::from(c.gc_min).min(epoch + 1);
+    guard("gc", || chain.gc(EpochId::new(min)))?;
+    for e in min..=epoch + 1 {
+        let got = chain.visible_at(EpochId::new(e)).copied();
+        if got != before[e as usize] {
+            return fail("c01/chain/gc-changed-visibility", format!("{c:?}: after gc({min}) epoch {e} sees {got:?}, before {:?}", before[e as usize]));
+        }
+    }
+    ok(c.versions.len() >= 2 || c.delete.is_some(), if c.delete.is_some() { "with-delete" } else { "versions-only" }, hash_dbg(c))
+}
 
 pub fn run(r: &mut Run) {
-    r.inconclusive("C01: check not built yet");
+    r.level = "exploration";
+    r.rule = "sessions: generated histories (2-4 sessions; begin/commit/rollback; create node via API/GQL/Cypher, create edge, SET/REMOVE \
+              property, add/remove label, DETACH DELETE, SPARQL INSERT/DELETE DATA; 15 read kinds at every position; 3 modes: free, \
+              create-only transactions, create-only + epoch bump before each begin) against a snapshot-isolation model; a read is strict when no \
+              entity of its footprint has a foreign write that a listed defect exposes, otherwise it is compared modulo those entities and \
+              attributed to the defect class; non-trivial = history with a strict read inside a transaction whose expected answer differs from \
+              the latest committed state while another writer was active since the reader began. kernel/chain: explicit (epoch, tx) probes \
+              against the documented visibility predicate; non-trivial = probe at a boundary (own tx, created==epoch, deleted, discarded)."
+        .into();
+    r.assumptions.push("edge deletion through query text is not generated (DELETE on an edge variable deletes the node with the same numeric id on the pinned tree); nodes are deleted with DETACH DELETE only".into());
+    r.assumptions.push("only SnapshotIsolation and Serializable transactions are generated (the statement's 'committed when the transaction began' is ambiguous for ReadCommitted)".into());
+    r.assumptions.push("mutations target only nodes the writer sees identically in model and engine (no foreign conflict), so a defect's effect is observed, not compounded".into());
+
+    let max_ops = if r.is_thorough() { 120 } else { 40 };
+    r.subcheck("sessions", r.cases(20_000, 600_000), move || history_strategy(max_ops), run_history);
+    r.subcheck("kernel", r.cases(6000, 600_000), kernel_strategy, run_kernel);
+    r.subcheck(
+        "chain",
+        r.cases(6000, 600_000),
+        || {
+            (proptest::collection::vec((0u8..3, 0u8..3), 0..6), proptest::option::of(0u8..3), 0u8..12)
+                .prop_map(|(versions, delete, gc_min)| ChainCase { versions, delete, gc_min })
+        },
+        run_chain,
+    );
 }
